@@ -36,6 +36,17 @@ pub enum Op {
     /// the stream is open; node `closer` closes it and the other node's user asks for it again the moment it is told
     /// that the stream closed: that request must be answered
     InstantReopen { closer: u8 },
+    /// the stream is open; the other node's user stops reading its handle; node `closer` closes the stream and asks for it
+    /// again the moment it is told; the other node's user, which has not read that the stream closed, closes "its" stream
+    /// `delay` (index into 0 / 0.2 / 1 / 3 / 8 / 20 ms) later: a close command for a stream that is already gone
+    StaleClose {
+        closer: u8,
+        delay: u8,
+        /// this node cuts the connection after the delay, and the stale close command follows 40 ms later (the user has
+        /// still not read its handle)
+        #[serde(default)]
+        cut: Option<u8>,
+    },
     /// quiet pause, then a clean open that must be answered
     /// open a stream to a connected peer that does not run the notification protocol at all: exactly one open-failure
     OpenToBare { node: u8 },
@@ -79,6 +90,7 @@ fn strategy() -> impl Strategy<Value = Case> {
         5 => prop_oneof![Just(0u16), Just(3), Just(20), Just(120)].prop_map(|ms| Op::Sleep { ms }),
         1 => (node.clone(), prop_oneof![Just(150u16), Just(1800)]).prop_map(|(node, ms)| Op::Freeze { node, ms }),
         2 => node.clone().prop_map(|closer| Op::InstantReopen { closer }),
+        1 => (node.clone(), 0u8..6, prop::option::weighted(0.4, 0u8..2)).prop_map(|(closer, delay, cut)| Op::StaleClose { closer, delay, cut }),
         2 => (node, prop::option::weighted(0.4, (0u8..2, prop_oneof![Just(0u8), Just(1), Just(3), Just(10), Just(30)]))).prop_map(|(node, cut)| Op::CleanOpen { node, cut, one_sided: false, late_answer: None }),
     ];
     (
@@ -110,6 +122,45 @@ fn clean_strategy() -> impl Strategy<Value = Case> {
         any::<u64>(),
     )
         .prop_map(|(auto_accept, policy, ops, seed)| Case { auto_accept, policy, ops, seed })
+}
+
+/// Histories built around a close command that arrives after the remote has closed the stream and asked for it again:
+/// optionally the connection is cut while the re-opened stream waits for the user's verdict, then reconnect and new opens.
+fn stale_close_strategy() -> impl Strategy<Value = Case> {
+    let node = 0u8..2;
+    (
+        node.clone(),
+        0u8..6,
+        prop::option::weighted(0.4, 0u8..2),
+        prop::option::weighted(0.5, (node.clone(), prop_oneof![Just(0u16), Just(3), Just(20), Just(120)])),
+        prop::collection::vec(prop_oneof![
+            2 => node.clone().prop_map(|node| Op::Open { node }),
+            1 => node.clone().prop_map(|node| Op::Close { node }),
+            1 => (node.clone(), 0u8..6, prop::option::weighted(0.4, 0u8..2)).prop_map(|(closer, delay, cut)| Op::StaleClose { closer, delay, cut }),
+            1 => node.clone().prop_map(|node| Op::SendSync { node }),
+        ], 0..3),
+        prop::collection::vec(node.clone().prop_map(|node| Op::CleanOpen { node, cut: None, one_sided: false, late_answer: None }), 0..2),
+        [prop::bool::weighted(0.2), prop::bool::weighted(0.2)],
+        [prop_oneof![5 => Just(0u8), 1 => Just(2u8), 1 => Just(3u8)], prop_oneof![5 => Just(0u8), 1 => Just(2u8), 1 => Just(3u8)]],
+        any::<u64>(),
+    )
+        .prop_map(|(closer, delay, cut_first, cut, extras, tail, auto_accept, policy, seed)| {
+            let mut ops = vec![Op::StaleClose { closer, delay, cut: cut_first }];
+            if cut_first.is_some() {
+                ops.push(Op::Sleep { ms: 120 });
+                ops.push(Op::Reconnect);
+            } else if let Some((who, ms)) = cut {
+                ops.push(Op::Sleep { ms });
+                ops.push(Op::ForceClose { node: who });
+                ops.push(Op::Sleep { ms: 120 });
+                ops.push(Op::Reconnect);
+            }
+            ops.push(Op::Sleep { ms: 120 });
+            ops.extend(extras);
+            ops.push(Op::Sleep { ms: 120 });
+            ops.extend(tail);
+            Case { auto_accept, policy, ops, seed }
+        })
 }
 
 /// Histories built around a validation request that is still unanswered when the connection is lost: the answer arrives
@@ -350,6 +401,7 @@ fn run_case_with(c: &Case, avoid_reject: bool) -> CaseResult {
     let mut froze_during_negotiation = false;
     let mut late_validation = false;
     let mut instant_reopen = false;
+    let mut stale_close = false;
     let wait_thaw = |f: &[Option<Instant>; 2]| {
         if let Some(u) = f.iter().flatten().max() {
             std::thread::sleep(u.saturating_duration_since(Instant::now()));
@@ -512,6 +564,49 @@ fn run_case_with(c: &Case, avoid_reject: bool) -> CaseResult {
                     nodes[v].send(Cmd::NotifReopenOnClosed(false));
                 }
                 std::thread::sleep(Duration::from_millis(30));
+            }
+            Op::StaleClose { closer, delay, cut } => {
+                let n = *closer as usize % 2;
+                let v = 1 - n;
+                wait_thaw(&frozen_until);
+                connect(&nodes, &log)?;
+                let open_on = |l: &[Obs], node: usize, peer: &PeerId| {
+                    let mut open = false;
+                    for o in l.iter().filter(|o| o.node == node) {
+                        match &o.kind {
+                            ObsKind::NotifOpened { peer: p, .. } if p == peer => open = true,
+                            ObsKind::NotifClosed { peer: p } if p == peer => open = false,
+                            _ => {}
+                        }
+                    }
+                    open
+                };
+                let (pn, pv) = (peers[n], peers[v]);
+                if !(open_on(&log.lock(), n, &pv) && open_on(&log.lock(), v, &pn)) {
+                    nodes[n].send(Cmd::NotifOpen(pv));
+                    if !wait_until(&log, Duration::from_millis(2500), |l| open_on(l, n, &pv) && open_on(l, v, &pn)) {
+                        continue;
+                    }
+                    std::thread::sleep(Duration::from_millis(30));
+                }
+                nodes[v].send(Cmd::NotifStall(Duration::from_millis(if cut.is_some() { 400 } else { 250 })));
+                nodes[n].send(Cmd::NotifReopenOnClosed(true));
+                std::thread::sleep(Duration::from_millis(5));
+                nodes[n].send(Cmd::NotifClose(pv));
+                let us = [0u64, 200, 1_000, 3_000, 8_000, 20_000][*delay as usize % 6];
+                let until = Instant::now() + Duration::from_micros(us);
+                while Instant::now() < until {
+                    std::hint::spin_loop();
+                }
+                if let Some(who) = cut {
+                    let w = *who as usize % 2;
+                    let _ = nodes[w].probes[0].send(ProbeCmd::ForceClose(peers[1 - w]));
+                    std::thread::sleep(Duration::from_millis(40));
+                }
+                nodes[v].send(Cmd::NotifClose(pn));
+                stale_close = true;
+                std::thread::sleep(Duration::from_millis(40));
+                nodes[n].send(Cmd::NotifReopenOnClosed(false));
             }
             Op::OpenToBare { node } => {
                 wait_thaw(&frozen_until);
@@ -726,6 +821,8 @@ fn run_case_with(c: &Case, avoid_reject: bool) -> CaseResult {
         .class_if(late_validation, "own-validation-answered-after-the-remote-gave-up")
         .nt(instant_reopen)
         .class_if(instant_reopen, "reopen-requested-the-moment-the-stream-closed")
+        .nt(stale_close)
+        .class_if(stale_close, "close-command-for-a-stream-already-closed-by-the-remote")
         .class_if(simultaneous, "simultaneous-opens")
         .class_if(disconnect_during_validation, "disconnect-during-validation")
         .class_if(reject_then_reopen, "reject-then-reopen")
@@ -758,5 +855,6 @@ pub fn run(ctx: &mut Ctx) {
     ctx.campaign("rogue-remote", CampaignCfg::new(t.pick(160, 1_500)).shards(16).shrink_iters(6), super::c11_rogue::strategy, super::c11_rogue::run_case);
     ctx.campaign("silent-peer", CampaignCfg::new(t.pick(96, 2_000)).shards(16).shrink_iters(4), silent_strategy, move |c: &Case| run_case_with(c, avoid));
     ctx.campaign("late-validation", CampaignCfg::new(t.pick(16, 320)).shards(16).shrink_iters(1), late_validation_strategy, move |c: &Case| run_case_with(c, avoid));
+    ctx.campaign("stale-close", CampaignCfg::new(t.pick(160, 3_000)).shards(16).shrink_iters(6), stale_close_strategy, move |c: &Case| run_case_with(c, avoid));
     ctx.campaign("stale-validation", CampaignCfg::new(t.pick(160, 3_000)).shards(16).shrink_iters(6), stale_strategy, move |c: &Case| run_case_with(c, avoid));
 }
